@@ -86,6 +86,8 @@ type vfSessOpts struct {
 	Tunnel   bool  `json:"tunnel,omitempty"`
 	Relays   int   `json:"relays,omitempty"`
 	Columns  int32 `json:"columns,omitempty"`
+	RelayDialDelayMs int `json:"relay_dial_delay_ms,omitempty"` // the relays' own connector towards the server answers this late
+	FirstWriteDelayMs int `json:"first_write_delay_ms,omitempty"` // latency of the in-band path for the first thing the client writes (its ACT line)
 	SegC2S   vfSeg `json:"seg_c2s"`
 	SegS2C   vfSeg `json:"seg_s2c"`
 }
@@ -144,6 +146,9 @@ func vfNewSession(o vfSessOpts) *vfSession {
 		serverIn = &vfFeedWriter{toRelay}
 		serverOut = fromRelay
 	}
+	if o.FirstWriteDelayMs > 0 {
+		serverIn = &vfSlowFirstWriter{inner: serverIn, delay: time.Duration(o.FirstWriteDelayMs) * time.Millisecond}
+	}
 	s.filter = NewTrzszFilter(s.userIn, s.termOut, serverIn, serverOut, TrzszOptions{TerminalColumns: o.Columns,
 		DetectDragFile: o.Drag, DetectTraceLog: o.TraceLog, EnableZmodem: o.Zmodem, EnableOSC52: o.OSC52})
 	if o.Tunnel {
@@ -167,8 +172,15 @@ func vfNewSession(o vfSessOpts) *vfSession {
 			s.tunC2S.out = func(b []byte) { _, _ = conn.Write(b) }
 			return tc
 		})
+		relayConnector := connector
+		if o.RelayDialDelayMs > 0 {
+			relayConnector = func(port int) net.Conn {
+				time.Sleep(time.Duration(o.RelayDialDelayMs) * time.Millisecond)
+				return connector(port)
+			}
+		}
 		for _, r := range s.relays {
-			r.SetTunnelConnector(connector)
+			r.SetTunnelConnector(relayConnector)
 		}
 	}
 	return s
@@ -212,6 +224,22 @@ func (w *vfFailableWriter) Write(p []byte) (int, error) {
 }
 
 func (w *vfFailableWriter) Close() error { return nil }
+
+// vfSlowFirstWriter delays the first write (a slow in-band path at the moment the client answers the trigger).
+type vfSlowFirstWriter struct {
+	inner io.WriteCloser
+	delay time.Duration
+	done  atomic.Bool
+}
+
+func (w *vfSlowFirstWriter) Write(p []byte) (int, error) {
+	if w.done.CompareAndSwap(false, true) {
+		time.Sleep(w.delay)
+	}
+	return w.inner.Write(p)
+}
+
+func (w *vfSlowFirstWriter) Close() error { return w.inner.Close() }
 
 type vfFeedWriter struct{ r *vfFeedReader }
 
